@@ -954,14 +954,68 @@ Theorem ttl_spec_reading : forall s text back,
 Proof. intros. unfold ttl_spec. apply opt_str_eqb_eq. Qed.
 
 (* ------------------------------------------------------------ witnesses *)
-(* <http://e/a U+00A0 b> : accepted by URIRef.n3(), refused by the reader's IRI pattern *)
+(* ------------------------------------------------------------ F15b is repaired: the full statements *)
+Lemma wf_triple_readable : forall t, wf_triple t = true -> triple_readable t = true.
+Proof.
+  intros [[s p] o] H. unfold wf_triple in H. apply andb_true_iff in H as [H Ho]. apply andb_true_iff in H as [Hs Hp].
+  unfold triple_readable. rewrite (wf_iri_readable p Hp), andb_true_r.
+  apply andb_true_iff. split.
+  - destruct s as [u|l]; [exact (wf_iri_readable u Hs)|reflexivity].
+  - destruct o as [[u|l]|lex lang dt]; simpl in Ho; try reflexivity; [exact (wf_iri_readable u Ho)|].
+    destruct lang, dt; try reflexivity; try discriminate. exact (wf_iri_readable _ Ho).
+Qed.
+
+Lemma nt_kf_zero : forall c, nt_kf c = 0.
+Proof.
+  intros [t|s|s]; try reflexivity. unfold nt_kf. destruct (wf_triple t) eqn:E; [|reflexivity].
+  now rewrite (wf_triple_readable t E).
+Qed.
+
+Definition full_triple (t : triple) : bool := wf_triple t && pystr_triple t.
+Lemma full_good : forall t, full_triple t = true -> good_triple t = true.
+Proof.
+  intros t H. unfold full_triple in H. apply andb_true_iff in H as [H1 H2]. unfold good_triple.
+  now rewrite H1, H2, (wf_triple_readable t H1).
+Qed.
+Lemma full_good_list : forall ts, forallb full_triple ts = true -> forallb good_triple ts = true.
+Proof.
+  induction ts as [|t ts IH]; intros H; [reflexivity|]. simpl in *. apply andb_true_iff in H as [H1 H2].
+  now rewrite (full_good t H1), (IH H2).
+Qed.
+
+Theorem nt_roundtrip_full : forall n, (1 <= n)%nat -> forall t, wf_triple t = true -> pystr_triple t = true ->
+  exists s, nt_row t = Some s /\ parse_doc s = Some [t] /\ parse_doc_buf n s = Some [t].
+Proof.
+  intros n Hn t H1 H2. assert (Hg : good_triple t = true) by (apply full_good; unfold full_triple; now rewrite H1, H2).
+  destruct (nt_roundtrip_row t Hg) as (s & Hs & Hp). destruct (nt_roundtrip_row_buffered n Hn t Hg) as (s' & Hs' & Hp').
+  exists s. rewrite Hs in Hs'. inversion Hs'; subst. auto.
+Qed.
+
+Theorem nt_roundtrip_doc_full : forall n, (1 <= n)%nat -> forall ts, forallb full_triple ts = true ->
+  exists s, nt_doc ts = Some s /\ parse_doc s = Some ts /\ parse_doc_buf n s = Some ts.
+Proof.
+  intros n Hn ts H. pose proof (full_good_list ts H) as Hg.
+  destruct (nt_roundtrip_doc ts Hg) as (s & Hs & Hp). destruct (nt_roundtrip_doc_buffered n Hn ts Hg) as (s' & Hs' & Hp').
+  exists s. rewrite Hs in Hs'. inversion Hs'; subst. auto.
+Qed.
+
+Theorem nt_spec_model_full : forall c, nt_wf c = true -> nt_spec c (nt_model c) = true.
+Proof. intros c H. apply nt_spec_model; [exact H|apply nt_kf_zero]. Qed.
+
+(* ------------------------------------------------------------ witnesses *)
+(* <http://e/a U+00A0 b> : the witness of finding F15b, read back since fix commit 4d2427e4 *)
 Definition w_nbsp_iri : str := [104; 116; 116; 112; 58; 47; 47; 101; 47; 97; 160; 98].
 Definition w_nbsp_triple : triple := (Iri w_nbsp_iri, [104; 58; 112], ONode (Iri [104; 58; 111])).
 
-Lemma nt_roundtrip_refuted_witness :
-  wf_triple w_nbsp_triple = true /\ pystr_triple w_nbsp_triple = true /\ nt_kf (NtTriple w_nbsp_triple) = 1 /\
-  exists s, nt_row w_nbsp_triple = Some s /\ parse_doc s = None /\ parse_doc_buf bufsiz s = None.
-Proof. repeat split. eexists. repeat split; vm_compute; reflexivity. Qed.
+Lemma nbsp_iri_roundtrips :
+  wf_triple w_nbsp_triple = true /\
+  exists s, nt_row w_nbsp_triple = Some s /\ parse_doc_buf bufsiz s = Some [w_nbsp_triple].
+Proof. split; [reflexivity|]. eexists. split; vm_compute; reflexivity. Qed.
+
+(* the historical reader class [^\s DQ LT GT] refused a character that the writer lets through: with it the
+   inclusion refused_sub_invalid fails, e.g. for U+00A0 (a str.isspace character) *)
+Lemma historical_class_refuted : exists c, is_space c = true /\ mem c invalid_uri = false /\ mem c uriref_refused = false.
+Proof. exists 160. repeat split. Qed.
 
 (* the reflected single-character tables agree with the modelled writers *)
 Lemma nt_quote_table_agrees :
